@@ -367,7 +367,7 @@ def lowerCon (B : Bnds) (o : Opts) : Con → Out
   | .indLin b bv .le body rhs => gIndLE b bv body rhs B o
   | .indLin b bv .ge body rhs => gIndGE b bv body rhs B o
   | .indLin b bv .eq body rhs => gIndEQ b bv body rhs B o
-  | .func r _ (.affine body c) => gLFC r body c
+  | .func r .none (.affine body c) => gLFC r body c
   | k => { cons := [k] }
 
 def lowerCons (B : Bnds) (o : Opts) : List Con → Out
@@ -478,8 +478,21 @@ def shortcutDef (B : Bnds) (defs : List Def) (d : Def) : Bool :=
     (k == .eq && (match body with | [(_, v)] => (B v).isBinary | _ => false))
   | _ => false
 
-def ConvOut.shortcut (o : ConvOut) : Bool :=
-  o.defs.any (shortcutDef o.B o.defs) || o.blocks.any (·.unmodelled)
+/-- further paths of the real converter not mirrored yet (see design notes, round 5): downward bound propagation from logical rows
+(`FixAsTrue` + `PropagateResult` through not/and/or, removal of a fixed-true `and`), the unary-encoding treatment of `var == const`
+(`ConvertMaps`), results whose created bounds are a point (`MakeFixedVar` instead of a definition), single-term algebraic rows -/
+def ConvOut.shortcut2 (o : ConvOut) (linear : Bool) : Bool :=
+  (linear && !o.fixTrue.isEmpty) ||
+  o.fixTrue.any (fun v => match defOf o.defs v with
+    | some ⟨_, _, Fun.and _⟩ => true | some ⟨_, _, Fun.or _⟩ => true | some ⟨_, _, Fun.not _⟩ => true | _ => false) ||
+  o.defs.any (fun d => match d.f with
+    | .condLin .eq [(_, v)] _ => (o.B v).isInt
+    | .affine [] _ => false
+    | f => (resBnd o.B f).isFixed) ||
+  o.roots.any (fun r => decide (r.body.length ≤ 1) && !(r.lb == some 1 && r.ub == none))
+
+def ConvOut.shortcut (o : ConvOut) (linear : Bool := false) : Bool :=
+  o.defs.any (shortcutDef o.B o.defs) || o.blocks.any (·.unmodelled) || o.shortcut2 linear
 
 def ConvOut.refusal (o : ConvOut) : Option Refusal :=
   (o.blocks.find? (fun b => b.refusal.isSome)).bind (·.refusal)
